@@ -1,5 +1,6 @@
 """C11: sam variants and variants agree on the same alignment."""
 import common as cm
+import cmdlayer
 import gen
 import anno
 import samgen
@@ -187,4 +188,13 @@ _state = {}
 
 
 def coverage_extra(ctx):
-    return {"second_stage_go_runs": _state.get("second_stage_runs", 0)}
+    return {"binary_runs": _cmd_state.get("binary_runs", 0), "second_stage_go_runs": _state.get("second_stage_runs", 0)}
+
+
+def extra(ctx, obl, cases, obs):
+    """the command through the built binary (cmd/*.go): binary = library entry point, and the option handling the command does itself"""
+    n = 2 if ctx.tier == "quick" else 12
+    _cmd_state["binary_runs"] = cmdlayer.sam_layer(ctx, 'variants', n)
+
+
+_cmd_state = {}
